@@ -1098,6 +1098,45 @@ bool linalg_shapes(int s, u32 a, bool bad)
     }
     return true;
 }
+bool linalg_index_types(int s, u32 a, bool bad)
+{
+    // operands whose extents use DIFFERENT index types: the comparison must not narrow (4 elements indexed with uint8_t
+    // against 260 = 256 + 4 indexed with int compare unequal), in both operand orders
+    static int big[300];
+    static int small_x[8], small_z[8];
+    for (int i = 0; i < 300; ++i) { big[i] = i; }
+    for (int i = 0; i < 8; ++i) {
+        small_x[i] = 100 + i;
+        small_z[i] = 0;
+    }
+    g_unmodified = [] {
+        for (int i = 0; i < 300; ++i) {
+            if (big[i] != i) { return false; }
+        }
+        for (int i = 0; i < 8; ++i) {
+            if (small_x[i] != 100 + i || small_z[i] != 0) { return false; }
+        }
+        return true;
+    };
+    using V8  = etl::mdspan<int, etl::dextents<etl::uint8_t, 1>>;
+    using V16 = etl::mdspan<int, etl::dextents<etl::uint16_t, 1>>;
+    using VI  = etl::mdspan<int, etl::dextents<int, 1>>;
+    int const n    = 1 + static_cast<int>(a % 4);
+    int const wrap = bad ? 256 * (1 + static_cast<int>((a / 4) % 1)) + n : n; // 256 + n wraps onto n in uint8_t
+    V8 x8(small_x, static_cast<etl::uint8_t>(n));
+    V8 z8(small_z, static_cast<etl::uint8_t>(n));
+    VI yi(big, wrap);
+    V16 y16(big, static_cast<etl::uint16_t>(wrap));
+    switch (s) {
+    case 0: etl::linalg::copy(yi, z8); break;          // wide index type on the left
+    case 1: etl::linalg::copy(x8, yi); break;          // narrow index type on the left (writes 256 + n elements if unchecked)
+    case 2: etl::linalg::add(x8, yi, z8); break;
+    case 3: etl::linalg::add(x8, x8, yi); break;
+    case 4: etl::linalg::swap_elements(z8, y16); break;
+    default: etl::linalg::swap_elements(y16, z8); break;
+    }
+    return true;
+}
 bool linalg_matvec(int s, u32 a, bool bad)
 {
     // non-square shapes: rows r, cols c, x has c elements, y has r elements
@@ -1231,6 +1270,7 @@ Entry const catalogue[] = {
     Entry{"static_vector<int,0> push_back/emplace_back/pop_back/insert", "static_vector.hpp", 1, &zero_capacity_vector},
     Entry{"linalg::matrix_vector_product with mismatched extents", "blas2_matrix_vector_product.hpp", 4, &linalg_matvec},
     Entry{"linalg add/copy/swap_elements with mismatched extents", "blas1_add.hpp|blas1_copy.hpp|blas1_swap_elements.hpp", 4, &linalg_extents},
+    Entry{"linalg add/copy/swap_elements between operands with different index types (extent 256 + n against n)", "blas1_add.hpp|blas1_copy.hpp|blas1_swap_elements.hpp", 6, &linalg_index_types},
     Entry{"linalg add/copy/swap_elements with equal element counts but different shapes", "blas1_add.hpp|blas1_copy.hpp|blas1_swap_elements.hpp", 4, &linalg_shapes},
 #if defined(TETL_ENABLE_CONTRACT_CHECKS_SAFE)
     Entry{"array<int,4>::operator[] (SAFE)", "array.hpp", 2, &array_index},
